@@ -102,7 +102,10 @@ class Exec(ExprMixin, CallMixin):
         self.input_syms: dict = {}
 
     # ------------------------------------------------------------------ decisions / obligations
-    def decide(self, cond) -> bool:
+    def decide(self, cond, assume_both=False) -> bool:
+        """assume_both: explore both outcomes without asking the solver whether they are feasible. Always sound (an
+        infeasible path only yields obligations with an unsatisfiable path condition); used for the empty / non-empty
+        split of a loop over `rest` when the contract opts in with loop_split_unchecked=True."""
         c = simp(cond)
         if z3.is_true(c):
             return True
@@ -114,8 +117,11 @@ class Exec(ExprMixin, CallMixin):
         if run.pos < len(run.trace):
             choice = run.trace[run.pos][0]
         else:
-            ft = feasible(run.pc + run.ctx, c)
-            ff = feasible(run.pc + run.ctx, z3.Not(c))
+            if assume_both:
+                ft = ff = True
+            else:
+                ft = feasible(run.pc + run.ctx, c)
+                ff = feasible(run.pc + run.ctx, z3.Not(c))
             if not ft and not ff:
                 if run.ctx:
                     return True  # dead operand of a short-circuit expression: its value is irrelevant
@@ -472,7 +478,7 @@ class Exec(ExprMixin, CallMixin):
             self.assume(whole == z3.Concat(done, rest))
         extra = {"done": VList(elem, seq=done), "rest": VList(elem, seq=rest)}
         self._assume_spec(contract, inv, fr, extra)
-        if not self.decide(z3.Length(rest) > 0):
+        if not self.decide(z3.Length(rest) > 0, assume_both=bool(contract.opts.get("loop_split_unchecked"))):
             self.assume(rest == empty)
             self.exec_block(st.orelse, fr)
             return
